@@ -372,6 +372,11 @@ def gen_scenario(rng: random.Random, P: Profile, name: str) -> Scn:
         scn.cur0 = rng.choice([s.val for s in scn.states])
     if rng.random() < P.p_start:
         scn.start = rng.choice([s.val for s in scn.states])
+        spare = [t for t in STATE_VALUE_TOKS if t not in [s.val for s in scn.states]]
+        if spare and rng.random() < 0.2:
+            # a start_value that is no state's value (a configured start state that was renamed since): an error when
+            # the machine is activated over an empty model, never looked at when the model already holds a state
+            scn.start = rng.choice(spare)
     n = gen_ops(rng, P, scn, evs)
     gen_acts(rng, P, scn, evs, n)
     r = rng.random()
